@@ -326,4 +326,422 @@ end
 
 end
 
+/-! ### the closest encloser proof -/
+
+theorem labelEq_symm {a b : Bytes} (h : labelEq a b = true) : labelEq b a = true := by
+  simp only [labelEq, beq_iff_eq, C04.cmpLabel_ci] at h ⊢
+  rw [cmp_eq_iff.mp h]
+  exact ReflCmp.compare_self
+
+theorem candidatesTail_head (s : Name) (ls : List Bytes) :
+    ∃ tl, candidatesTail s ls = mk ls :: tl := by
+  cases ls with
+  | nil => exact ⟨[], rfl⟩
+  | cons l rest =>
+    simp only [candidatesTail]
+    split
+    · exact ⟨[], rfl⟩
+    · exact ⟨_, rfl⟩
+
+theorem candidatesFrom_mk (s : Name) (ls : List Bytes) :
+    candidatesFrom s (mk ls) = candidatesTail s ls := by
+  cases ls with
+  | nil =>
+    unfold candidatesFrom
+    split <;> rfl
+  | cons l rest => rfl
+
+section
+variable {H : Name → Bytes} {enc : Bytes → Bytes}
+
+/-- what `pickEncloser` returns on the candidate list of `ql`: two consecutive suffix names of the
+query name, the shorter one carrying the label looked for -/
+theorem pickEncloser_spec (s : Name) (ml : Bytes) (ql : List Bytes) {a b : Info}
+    (h : pickEncloser ml ((candidatesTail s ql).map (info H enc)) = some (a, b)) :
+    ∃ l ls, a = info H enc (mk (l :: ls)) ∧ b = info H enc (mk ls) ∧ (l :: ls) <:+ ql ∧
+      labelEq b.label ml = true := by
+  induction ql with
+  | nil => simp [candidatesTail, pickEncloser] at h
+  | cons l rest ih =>
+    simp only [candidatesTail] at h
+    split at h
+    · simp [pickEncloser] at h
+    · obtain ⟨tl, htl⟩ := candidatesTail_head s rest
+      rw [htl] at h
+      simp only [List.map_cons, pickEncloser] at h
+      split at h
+      · rename_i heq
+        simp only [Option.some.injEq, Prod.mk.injEq] at h
+        obtain ⟨rfl, rfl⟩ := h
+        exact ⟨l, rest, rfl, rfl, List.suffix_refl _, heq⟩
+      · have h' : pickEncloser ml ((candidatesTail s rest).map (info H enc)) = some (a, b) := by
+          rw [htl]; exact h
+        obtain ⟨l', ls', h1, h2, h3, h4⟩ := ih h'
+        exact ⟨l', ls', h1, h2, h3.trans (List.suffix_cons _ _), h4⟩
+
+variable {fx : Fixes}
+
+/-- the two shapes of the result of `closest_encloser_proof` -/
+theorem cep_cases (q : Name) (soa : Option Name) (pairs : List Pair) :
+    closestEncloserProof fx H enc q soa pairs = { ce := none, nc := none } ∨
+    ∃ m nc ce,
+      ((encloserCandidates q soa).map (info H enc)).findSome?
+        (fun c => findMatching pairs c.label) = some m ∧
+      pickEncloser m.label ((encloserCandidates q soa).map (info H enc)) = some (nc, ce) ∧
+      closestEncloserProof fx H enc q soa pairs =
+        { ce := some (ce, m)
+          nc := (findCovering fx enc pairs nc.hash nc.label).map fun r => (nc, r) } := by
+  unfold closestEncloserProof
+  cases h1 : ((encloserCandidates q soa).map (info H enc)).findSome?
+      (fun c => findMatching pairs c.label) with
+  | none => left; simp only [h1]
+  | some m =>
+    cases h2 : pickEncloser m.label ((encloserCandidates q soa).map (info H enc)) with
+    | none => left; simp only [h1, h2]
+    | some p =>
+      obtain ⟨nc, ce⟩ := p
+      right
+      exact ⟨m, nc, ce, rfl, h2, by simp only [h1, h2]⟩
+
+/-- the closest encloser proof never has a next closer cover without a closest encloser -/
+theorem cep_ce_none {q : Name} {soa : Option Name} {pairs : List Pair}
+    (h : (closestEncloserProof fx H enc q soa pairs).ce = none) :
+    (closestEncloserProof fx H enc q soa pairs).nc = none := by
+  rcases cep_cases (fx := fx) (H := H) (enc := enc) q soa pairs with h0 | ⟨m, nc, ce, _, _, h0⟩
+  · rw [h0]
+  · rw [h0] at h; cases h
+
+/-- inversion of `closest_encloser_proof` for a fully qualified query name -/
+theorem cep_inv {ql : List Bytes} {soa : Option Name} {pairs : List Pair} {ci ni : Info}
+    {m ncr : Pair}
+    (hce : (closestEncloserProof fx H enc (mk ql) soa pairs).ce = some (ci, m))
+    (hnc : (closestEncloserProof fx H enc (mk ql) soa pairs).nc = some (ni, ncr)) :
+    ∃ l ls, ni = info H enc (mk (l :: ls)) ∧ ci = info H enc (mk ls) ∧ (l :: ls) <:+ ql ∧
+      m ∈ pairs ∧ labelEq (enc (H (mk ls))) m.label = true ∧
+      findCovering fx enc pairs (H (mk (l :: ls))) (enc (H (mk (l :: ls)))) = some ncr := by
+  rcases cep_cases (fx := fx) (H := H) (enc := enc) (mk ql) soa pairs with
+    h0 | ⟨m', nc, ce, hfs, hpick, h0⟩
+  · rw [h0] at hce; cases hce
+  · rw [h0] at hce hnc
+    simp only [Option.some.injEq, Prod.mk.injEq] at hce
+    obtain ⟨rfl, rfl⟩ := hce
+    have hm : m' ∈ pairs := by
+      obtain ⟨c, _, hc⟩ := List.exists_of_findSome?_eq_some hfs
+      exact List.mem_of_find?_eq_some hc
+    have hcands : ∃ s, encloserCandidates (mk ql) soa = candidatesTail s ql ∨
+        encloserCandidates (mk ql) soa = [] := by
+      unfold encloserCandidates
+      cases soa with
+      | none => exact ⟨mk [], .inr rfl⟩
+      | some s =>
+        refine ⟨s, ?_⟩
+        simp only
+        split
+        · exact .inl (candidatesFrom_mk s ql)
+        · exact .inr rfl
+    obtain ⟨s, hs | hs⟩ := hcands
+    · rw [hs] at hpick
+      obtain ⟨l, ls, h1, h2, h3, h4⟩ := pickEncloser_spec s m'.label ql hpick
+      simp only [Option.map_eq_some_iff] at hnc
+      obtain ⟨r, hr, hrr⟩ := hnc
+      simp only [Prod.mk.injEq] at hrr
+      obtain ⟨rfl, rfl⟩ := hrr
+      subst h1 h2
+      exact ⟨l, ls, rfl, rfl, h3, hm, h4, hr⟩
+    · rw [hs] at hpick
+      simp [pickEncloser] at hpick
+
+end
+
+/-! ### §8.4 name error and §8.7 wildcard no data -/
+
+theorem extendAll_labels {n r : Name} {ls : List Bytes} (h : Name.extendAll n ls = .ok r) :
+    r.labels = n.labels ++ ls := by
+  induction ls generalizing n with
+  | nil => simp [Name.extendAll] at h; subst h; simp
+  | cons l ls ih =>
+    simp only [Name.extendAll] at h
+    cases he : n.extendName l with
+    | ok n' =>
+      rw [he] at h
+      simp only [Outcome.bind_ok] at h
+      rw [ih h]
+      simp only [Name.extendName] at he
+      split at he
+      · simp at he
+      · simp at he; subst he; simp
+    | err => rw [he] at h; simp at h
+    | panic s => rw [he] at h; simp at h
+
+/-- `prepend_label("*")` on a fully qualified name -/
+theorem prependLabel_star {ls : List Bytes} {w : Name}
+    (h : Name.prependLabel (mk ls) [42] = .ok w) : w = mk ([42] :: ls) := by
+  unfold Name.prependLabel at h
+  have hnew : Name.new.appendLabel [42] = .ok { labels := [[42]], fqdn := false } := by decide
+  rw [hnew] at h
+  simp only [Outcome.bind_ok] at h
+  cases he : Name.extendAll { labels := [[42]], fqdn := false } (mk ls).labels with
+  | ok r =>
+    rw [he] at h
+    simp only [Outcome.map, Outcome.ok.injEq] at h
+    have := extendAll_labels he
+    subst h
+    simp [mk, this]
+  | err => rw [he] at h; simp [Outcome.map] at h
+  | panic s => rw [he] at h; simp [Outcome.map] at h
+
+section
+variable {fx : Fixes} {H : Name → Bytes} {enc : Bytes → Bytes}
+
+theorem cepw_fst {q : Name} {soa : Option Name} {pairs : List Pair} {matching : Bool} :
+    (cepWithWildcard fx H enc q soa pairs matching).1 = closestEncloserProof fx H enc q soa pairs := by
+  unfold cepWithWildcard
+  simp only
+  split
+  · rfl
+  · split <;> rfl
+
+/-- inversion of `closest_encloser_proof_with_wildcard` when a wildcard record was found -/
+theorem cepw_inv {ql : List Bytes} {soa : Option Name} {pairs : List Pair} {matching : Bool}
+    {ci wi : Info} {m wr : Pair}
+    (hce : (closestEncloserProof fx H enc (mk ql) soa pairs).ce = some (ci, m))
+    (hci : ∃ ls, ci = info H enc (mk ls))
+    (h : (cepWithWildcard fx H enc (mk ql) soa pairs matching).2 = some (wi, wr)) :
+    ∃ ls, ci = info H enc (mk ls) ∧ wi = info H enc (mk ([42] :: ls)) ∧
+      (if matching then findMatching pairs (enc (H (mk ([42] :: ls))))
+       else findCovering fx enc pairs (H (mk ([42] :: ls))) (enc (H (mk ([42] :: ls))))) = some wr := by
+  obtain ⟨ls, rfl⟩ := hci
+  unfold cepWithWildcard at h
+  simp only [hce] at h
+  simp only [info] at h
+  cases hp : Name.prependLabel (mk ls) [42] with
+  | ok w =>
+    have hw := prependLabel_star hp
+    subst hw
+    simp only [hp, Option.map_eq_some_iff, Prod.mk.injEq] at h
+    obtain ⟨r, hr, rfl, rfl⟩ := h
+    exact ⟨ls, rfl, rfl, by simpa [info] using hr⟩
+  | err => simp [hp] at h
+  | panic s => simp [hp] at h
+
+variable {soa : Option Name} {recs : List Rec} {pairs : List Pair} {Z : ZoneView}
+
+/-- no record of the input is the record of an ancestor delegation or a DNAME owner -/
+def NoDelegRec (recs : List Rec) : Prop := ∀ r ∈ recs, isDelegationRec r = false
+
+/-- The closest encloser proof, read semantically: given the matching record for `ls` and the
+covering record for `l :: ls` (both suffixes of the query name), `ls` is THE closest encloser of the
+query name in every consistent zone view, the query name does not exist, and `ls` is not a cut. -/
+theorem closest_encloser_sound (hE : EncOrd enc) (hp : mkPairs soa recs = some pairs)
+    (hc : ConsistentWith3 H enc recs Z) (hZ : Z.WF)
+    (hw : fx.wrap = true ∨ NoWrap enc recs)
+    {ql : List Bytes} {l : Bytes} {ls : List Bytes} (hsuf : (l :: ls) <:+ ql)
+    (hinj : NoCollisionAt H Z ls)
+    {m ncr : Pair} (hm : m ∈ pairs) (hml : labelEq (enc (H (mk ls))) m.label = true)
+    (hcov : findCovering fx enc pairs (H (mk (l :: ls))) (enc (H (mk (l :: ls)))) = some ncr)
+    (hno : ncr.data.optOut = false)
+    (hdel : isDelegationRec m.data = false) :
+    ¬ Z.has ql ∧ ∀ ce, IsClosestEncloser Z ql ce → ce = ls ∧ ¬ Z.Cut ce := by
+  -- the matching record describes `ls`
+  have hfm : ∃ ts, Z.types ls = some ts ∧ ∀ ty, ty ∈ m.data.types ↔ ty ∈ ts := by
+    obtain ⟨hmem, ⟨rest, hlab⟩, _⟩ := mkPairs_spec hp m hm
+    obtain ⟨l', rest', n, ts, hown, _, hts, hl, htypes, _⟩ := hc _ hmem
+    have hll : m.label = l' := by
+      rw [hown] at hlab; simp at hlab; exact hlab.1.symm
+    subst hll
+    have : compare (H (mk n)) (H (mk ls)) = .eq := by
+      rw [← label_vs_enc hE hl]
+      simpa [labelEq] using labelEq_symm hml
+    have hnt : n = ls := hinj n (by simp [ZoneView.has, hts]) (cmp_eq_iff.mp this)
+    subst hnt
+    exact ⟨ts, hts, htypes⟩
+  obtain ⟨ts, hts, htypes⟩ := hfm
+  have hhas : Z.has ls := by simp [ZoneView.has, hts]
+  have hapex : Z.apex.length ≤ ls.length := hZ.below ls hhas
+  -- the next closer name does not exist
+  have hnc : ¬ Z.has (l :: ls) := by
+    intro hh
+    have := (findCovering_sound hE hp hc hw hcov hh).1
+    simp [hno] at this
+  -- hence nothing at or below it
+  have hbelow : ∀ a, a <:+ ql → ls.length < a.length → ¬ Z.has a := by
+    intro a ha hlen hh
+    have hsa : (l :: ls) <:+ a := List.suffix_of_suffix_length_le hsuf ha (by simp; omega)
+    obtain ⟨pre, rfl⟩ := hsa
+    exact hnc (has_of_has_append hZ pre _ (by simp; omega) hh)
+  refine ⟨hbelow ql (List.suffix_refl _) ?_, ?_⟩
+  · have := hsuf.length_le
+    simp at this
+    omega
+  · intro ce ⟨hce1, hce2, hce3⟩
+    have hlsq : ls <:+ ql := (List.suffix_cons l ls).trans hsuf
+    have h1 : ¬ ce.length < ls.length := fun hlt => hce3 ls hlsq hlt hhas
+    have h2 : ¬ ls.length < ce.length := fun hlt => hbelow ce hce1 hlt hce2
+    have heq : ce = ls := by
+      have hs : ce <:+ ls := List.suffix_of_suffix_length_le hce1 hlsq (by omega)
+      exact hs.eq_of_length (by omega)
+    subst heq
+    refine ⟨rfl, ?_⟩
+    -- not a cut: the record's bitmap is the name's type set
+    simp only [isDelegationRec, isDelegNS, Bool.or_eq_false_iff, Bool.and_eq_false_iff] at hdel
+    rintro (⟨⟨ts1, h1', hns⟩, hsoa⟩ | ⟨ts1, h1', hdn⟩)
+    · rw [hts] at h1'; cases h1'
+      rcases hdel.1 with hh | hh
+      · have : tNS ∈ m.data.types := (htypes _).mpr hns
+        simp at hh
+        exact hh this
+      · simp only [Bool.not_eq_false', List.contains_iff_mem] at hh
+        exact hsoa ⟨ts, hts, (htypes _).mp hh⟩
+    · rw [hts] at h1'; cases h1'
+      have : tDNAME ∈ m.data.types := (htypes _).mpr hdn
+      have := hdel.2
+      simp_all
+
+/-- the side conditions on the two records a closest encloser proof relies on, from either the
+repair switch or the corresponding restriction of the input -/
+theorem side_conditions (hp : mkPairs soa recs = some pairs)
+    (ho : fx.optout = true ∨ NoOptOut recs) (hd : fx.deleg = true ∨ NoDelegRec recs)
+    {cr ncr : Pair} (hcr : cr ∈ pairs) (hncr : ncr ∈ pairs)
+    (h1 : ¬ (fx.deleg && isDelegationRec cr.data) = true)
+    (h2 : ¬ (fx.optout && ncr.data.optOut) = true) :
+    isDelegationRec cr.data = false ∧ ncr.data.optOut = false := by
+  constructor
+  · rcases hd with hd | hd
+    · simpa [hd] using h1
+    · exact hd _ (mkPairs_spec hp cr hcr).1
+  · rcases ho with ho | ho
+    · simpa [ho] using h2
+    · exact ho _ (mkPairs_spec hp ncr hncr).1
+
+/-- **§8.4 name error.**  `Secure` from `validate_nxdomain_response` ⇒ in every well-formed zone view
+consistent with the records: QNAME does not exist, and its closest encloser has no wildcard child and
+is not a zone cut / DNAME owner.  Collision-freeness is used only for the *matching* record of the
+closest encloser.  Side conditions for the code as it is = findings (wrap-around, opt-out, §8.3). -/
+theorem nxdomain_sound (hE : EncOrd enc) (hp : mkPairs soa recs = some pairs)
+    (hc : ConsistentWith3 H enc recs Z) (hZ : Z.WF)
+    (hw : fx.wrap = true ∨ NoWrap enc recs) (ho : fx.optout = true ∨ NoOptOut recs)
+    (hd : fx.deleg = true ∨ NoDelegRec recs)
+    {ql : List Bytes} (hinj : ∀ a, a <:+ ql → NoCollisionAt H Z a)
+    (h : validateNxdomain fx H enc (mk ql) soa pairs = .secure) : ClaimNameError Z ql := by
+  unfold validateNxdomain at h
+  simp only at h
+  split at h
+  · cases h
+  · generalize hcw : cepWithWildcard fx H enc (mk ql) soa pairs false = p at h
+    obtain ⟨cep, wc⟩ := p
+    have hcep : cep = closestEncloserProof fx H enc (mk ql) soa pairs := by
+      rw [← cepw_fst (matching := false), hcw]
+    have hwc : (cepWithWildcard fx H enc (mk ql) soa pairs false).2 = wc := by rw [hcw]
+    simp only at h
+    split at h
+    · cases h
+    · split at h
+      · rename_i _ _ _ ci cr ni ncr wx hce hnc
+        have hwx := hwc
+        split at h
+        · cases h
+        · rename_i h1
+          split at h
+          · cases h
+          · rename_i h2
+            obtain ⟨wi, wr⟩ := wx
+            rw [hcep] at hce hnc
+            obtain ⟨l, ls, rfl, rfl, hsuf, hm, hml, hcov⟩ := cep_inv hce hnc
+            have hncr : ncr ∈ pairs := by
+              unfold findCovering at hcov
+              exact List.mem_of_find?_eq_some hcov
+            obtain ⟨hdel, hno⟩ := side_conditions hp ho hd hm hncr h1 h2
+            have hlsq : ls <:+ ql := (List.suffix_cons l ls).trans hsuf
+            obtain ⟨hq, hce'⟩ := closest_encloser_sound hE hp hc hZ hw hsuf (hinj ls hlsq)
+              hm hml hcov hno hdel
+            obtain ⟨ls', hls', _, hwcov⟩ := cepw_inv hce ⟨ls, rfl⟩ hwx
+            have : ls' = ls := by
+              have := congrArg Info.name hls'
+              simp [info, mk] at this
+              exact this.symm
+            subst this
+            simp only [Bool.false_eq_true, if_false] at hwcov
+            refine ⟨hq, ?_⟩
+            intro ce hce''
+            obtain ⟨rfl, hcut⟩ := hce' ce hce''
+            refine ⟨?_, hcut⟩
+            intro hwhas
+            obtain ⟨_, ⟨⟨hns, _⟩, _⟩⟩ := findCovering_sound hE hp hc hw hwcov hwhas
+            exact hZ.wild_no_ns _ hns
+      · rename_i _ _ _ v1 v2 hce hnc
+        rw [hcep] at hce hnc
+        rw [cep_ce_none hce] at hnc
+        cases hnc
+      · cases h
+
+/-- **§8.7 wildcard no data** (case 5, first arm; the apex arm is excluded by `hapex`). -/
+theorem wildcard_nodata_sound (hE : EncOrd enc) (hp : mkPairs soa recs = some pairs)
+    (hc : ConsistentWith3 H enc recs Z) (hZ : Z.WF)
+    (hw : fx.wrap = true ∨ NoWrap enc recs) (ho : fx.optout = true ∨ NoOptOut recs)
+    (hd : fx.deleg = true ∨ NoDelegRec recs)
+    {ql : List Bytes} {qtype : Nat}
+    (hapex : fx.apex = true ∨ eqSoa soa (mk ql) = false)
+    (hinj : ∀ a, a <:+ ql → NoCollisionAt H Z a ∧ NoCollisionAt H Z ([42] :: a))
+    (h : nodataWildNoData fx H enc (mk ql) qtype soa pairs = .secure) :
+    ClaimWildcardNoData Z ql qtype := by
+  unfold nodataWildNoData at h
+  generalize hcw : cepWithWildcard fx H enc (mk ql) soa pairs true = p at h
+  obtain ⟨cep, wc⟩ := p
+  have hcep : cep = closestEncloserProof fx H enc (mk ql) soa pairs := by
+    rw [← cepw_fst (matching := true), hcw]
+  have hwc : (cepWithWildcard fx H enc (mk ql) soa pairs true).2 = wc := by rw [hcw]
+  simp only at h
+  split at h
+  · rename_i _ _ _ ci cr ni ncr wi wr hce hnc
+    have hwx := hwc
+    split at h
+    · rename_i hty
+      split at h
+      · cases h
+      · rename_i h1
+        split at h
+        · cases h
+        · rename_i h2
+          rw [hcep] at hce hnc
+          obtain ⟨l, ls, rfl, rfl, hsuf, hm, hml, hcov⟩ := cep_inv hce hnc
+          have hncr : ncr ∈ pairs := by
+            unfold findCovering at hcov
+            exact List.mem_of_find?_eq_some hcov
+          obtain ⟨hdel, hno⟩ := side_conditions hp ho hd hm hncr h1 h2
+          have hlsq : ls <:+ ql := (List.suffix_cons l ls).trans hsuf
+          obtain ⟨hq, hce'⟩ := closest_encloser_sound hE hp hc hZ hw hsuf (hinj ls hlsq).1
+            hm hml hcov hno hdel
+          obtain ⟨ls', hls', _, hwm⟩ := cepw_inv hce ⟨ls, rfl⟩ hwx
+          have : ls' = ls := by
+            have := congrArg Info.name hls'
+            simp [info, mk] at this
+            exact this.symm
+          subst this
+          simp only [if_true] at hwm
+          obtain ⟨ts, hts, htypes⟩ := findMatching_sound hE hp hc (hinj ls' hlsq).2 hwm
+          simp only [Bool.and_eq_true, Bool.not_eq_true'] at hty
+          refine ⟨hq, ?_⟩
+          intro ce hce''
+          obtain ⟨rfl, hcut⟩ := hce' ce hce''
+          refine ⟨?_, ?_, hcut⟩
+          · rintro ⟨ts', h', ht⟩
+            rw [hts] at h'; cases h'
+            have := List.contains_iff_mem.mpr ((htypes _).mpr ht)
+            rw [hty.1] at this; cases this
+          · rintro ⟨ts', h', ht⟩
+            rw [hts] at h'; cases h'
+            have := List.contains_iff_mem.mpr ((htypes _).mpr ht)
+            rw [hty.2] at this; cases this
+    · cases h
+  · rename_i _ _ _ v1 v2 hce hnc
+    rw [hcep] at hce hnc
+    rw [cep_ce_none hce] at hnc
+    cases hnc
+  · rcases hapex with ha | ha
+    · simp [ha] at h
+    · simp [ha] at h
+  · cases h
+
+end
+
 end HickoryVerif.C09
